@@ -1,9 +1,9 @@
 //! flat map family: FixedSizeFlatMap<K,V,N>, FlatMap, RelocatableFlatMap; keys and values `Tracked`
-use crate::{CAPS, Case, begin, finish, note_reloc};
-use checks_bb::models::flatmap::*;
-use checks_bb::models::{Known, direct, op_sequences};
-use checks_bb::reloc::Block;
-use checks_bb::tracked::Tracked;
+use crate::families::{CAPS, Case, begin, finish, note_reloc};
+use crate::models::flatmap::*;
+use crate::models::{Known, direct, op_sequences};
+use crate::reloc::Block;
+use crate::tracked::Tracked;
 use iceoryx2_bb_container::flatmap::{FixedSizeFlatMap, FlatMap, RelocatableFlatMap};
 use proptest::prelude::*;
 use std::cell::RefCell;
@@ -11,7 +11,7 @@ use vcore::{Ctx, Failure, Obs, ensure};
 
 type T = Tracked;
 
-fn run_case(c: &Case<FOp>, obs: &mut Obs, known: &Known) -> Result<(), Failure> {
+pub fn run_case(c: &Case<FOp>, obs: &mut Obs, known: &Known) -> Result<(), Failure> {
     begin(known);
     let mut nohook = |_: usize| {};
     macro_rules! fixed {
@@ -65,7 +65,7 @@ pub fn parts(ctx: &mut Ctx) {
     let known = Known::from_ctx(ctx, SIGNATURES);
     let alphabet = fop_alphabet();
     let len = ctx.scale(6, 7);
-    let grid = crate::combos(3, |f, c| f != 1 && c == 0);
+    let grid = crate::families::combos(3, |f, c| f != 1 && c == 0);
     let cases = grid.iter().copied().flat_map(|(flavour, cap)| {
         op_sequences(&alphabet, len).map(move |ops| Case { flavour, cap, reloc: 0, ops })
     });
